@@ -60,11 +60,24 @@ def flags (cfg : Cfg) (s : List Char) : Json :=
       | _ => false
     Json.mkObj [("extreme", Json.bool extreme), ("inexactSub", Json.bool inexact)]
 
+/-- the unit database of the SI reference table (`PGA/Spec/SI.lean`): every reference unit with its exact reference value,
+the twenty SI prefixes, the documented snapping threshold (same definition as `PGA.C12.refCfg`, which the C12 table
+obligations are stated over) -/
+def refCfg : Cfg :=
+  { thr := 1 / 10 ^ 7,
+    prefixes := PGA.SI.prefixes.map fun pk => (pk.1, (10 : Rat) ^ pk.2),
+    db := PGA.SI.units.map fun r => (r.name, ⟨.exact r.value, r.dim⟩) }
+
 def handle (op : String) (j : Json) : Option (Except String Json) :=
   match op with
   | "c10.eval" => some do
       let t ← str j "text"
       pure ((jres (evalStr liveCfg t.toList)).setObjVal! "flags" (flags liveCfg t.toList))
+  | "c10.eval_ref" => some do
+      -- the same evaluator over the hand-written SI reference (nothing taken from the repository): the oracle of
+      -- checks that must not inherit a changed unit definition
+      let t ← str j "text"
+      pure (jres (evalStr refCfg t.toList))
   | "c10.tokens" => some do
       let t ← str j "text"
       pure (Json.arr ((lex t.toList).map jtok).toArray)
